@@ -205,12 +205,13 @@ def tlc_validate_sharded(trace_module, events, shards=None, tag="tv", env=None, 
 
 # ------------------------------------------------------------------------------- known findings
 def known_findings(prop):
-    path = os.path.join(ROOT, "known_findings.jsonl")
+    paths = [os.path.join(ROOT, "known_findings.jsonl")] + sorted(glob.glob(os.path.join(ROOT, "known_findings.d", "*.jsonl")))
     out = []
-    if os.path.exists(path):
-        for r in read_ndjson(path):
-            if r.get("property") == prop and r.get("status") == "known":
-                out.append(r)
+    for path in paths:
+        if os.path.exists(path):
+            for r in read_ndjson(path):
+                if r.get("property") == prop and r.get("status") == "known":
+                    out.append(r)
     return out
 
 
